@@ -3,8 +3,48 @@ C17 — No data races under documented concurrent use. Property theorems only (v
 readers-writer locks; happens-before = program order + release→acquire edges).
 -/
 import OAP.Model.Client.Lockset
+import OAP.Gen.Facts
 namespace OAP.C17
 open OAP OAP.Lockset
+
+/-! ### the access discipline of the client struct, checked against the table regenerated from the source -/
+
+/-- functions of the documented single-threaded phase: construction, option setters, handler registration
+("registered before dialing") and `Dial` up to the first goroutine it starts -/
+def initFns : List String :=
+  ["New", "WithContext", "WithLogger", "WithConnectMetadata", "Dial", "Subscribe", "OnPing", "OnPong", "OnClose", "AfterReconnected"]
+/-- fields written only in that phase and read-only afterwards -/
+def immutableAfterInit : List String :=
+  ["Context", "Logger", "addr", "afterReconnected", "connectMetadata", "dialOptions", "handshake", "onClose", "onPing", "onPong", "subs"]
+def muFields : List String := ["conn", "doReconnectting"]
+def stateFields : List String := ["authInfo", "lastKeepaliveId", "lastPongAt", "reconnectCount"]
+/-- synchronisation objects themselves (mutexes, Once, the close signal channel) -/
+def syncObjects : List String := ["closeCh", "closeOnce", "recvsMu", "stateMu", "embed:sync.RWMutex"]
+/-- accesses whose lock is held by the (only) caller rather than lexically: `client.write` is called from keepalive's ping
+closure, which holds the read lock -/
+def justified : List (String × String × String × List String) := [("conn", "write", "read", [])]
+
+def holdsAny (locks : List String) (l : String) : Bool := locks.contains (l ++ ":R") || locks.contains (l ++ ":W")
+
+def disciplined (row : String × String × String × List String) : Bool :=
+  let (f, fn, kind, locks) := row
+  if justified.contains row then true
+  else if immutableAfterInit.contains f then kind == "read" || initFns.contains fn
+  else if muFields.contains f then (if kind == "write" then locks.contains "mu:W" else holdsAny locks "mu")
+  else if stateFields.contains f then locks.contains "stateMu:W"
+  else if f == "recvs" then (if kind == "write" then locks.contains "recvsMu:W" else holdsAny locks "recvsMu")
+  else if f == "recovering" then kind == "atomic"
+  else syncObjects.contains f          -- a field this classification does not know is NOT disciplined
+
+/-- T2: every syntactic access to a field of the client struct (regenerated from go/client/client.go on every run,
+closures included, with the lexically held locks) obeys the discipline: guarded by its mutex (write mode for writes),
+or atomic, or confined to the single-threaded initialisation phase, or justified by name; and every field of the
+struct is classified. With `lockset_sound` below this is the argument that the client's fields are race-free. -/
+theorem table_disciplined :
+    Gen.clientAccess.all disciplined = true ∧
+    Gen.clientFields.all (fun f => immutableAfterInit.contains f || muFields.contains f || stateFields.contains f ||
+      f == "recvs" || f == "recovering" || syncObjects.contains f) = true := by
+  decide
 
 /-- LOCKSET SOUNDNESS: two accesses by different threads, each made while holding a common lock, at least one of the
 holds in write mode, are ordered by happens-before — so a field whose every access site is protected that way (the
